@@ -9,6 +9,7 @@ import (
 	"sort"
 	"strings"
 	"text/scanner"
+	"unicode/utf8"
 
 	"github.com/alecthomas/participle/v2"
 	"github.com/alecthomas/participle/v2/lexer"
@@ -229,6 +230,25 @@ func entryParser(rc *RunCtx) *Violation {
 	var fired []string
 	if subBatch != "faultfree" && !w.verbatim {
 		d, fired = deriveInput(rc, x, nil, allContentFaults)
+	}
+	// now and then an input larger than any internal buffer, with one very long token placed
+	// across a power-of-two offset (where chunked readers and copy loops have their seams)
+	if dc.unitLen > 0 && !w.verbatim && simrt.Choose(bound(50, 20)) == 1 {
+		target := []int{40000, 70000, 140000}[simrt.Choose(3)]
+		big := instantiate(dc.expand(1+target/dc.unitLen), delims)
+		seam := []int{32768, 65536, 131072}[simrt.Choose(3)]
+		if seam < len(big)-16 {
+			run := 4200 + simrt.Choose(5000)
+			at := seam - simrt.Choose(run)
+			for at > 0 && !utf8.RuneStart(big[at]) {
+				at--
+			}
+			ch := []string{"a", "é", "7"}[simrt.Choose(3)]
+			big = big[:at] + strings.Repeat(ch, run) + big[at:]
+			rc.fault("huge-input-long-token-across-seam")
+		}
+		d = big
+		fired = append(fired, "huge")
 	}
 	name := fileNames[simrt.Choose(len(fileNames))]
 	viol := func(clause, detail string) *Violation {
